@@ -269,6 +269,7 @@ class C11(object):
             return created
 
         nfl = 0
+        obs = []
         for idx, op in enumerate(case.get("ops", [])):
             name = op[0]
             exp = got = None
@@ -377,6 +378,7 @@ class C11(object):
                     self._adopt_new_items(W, refb, refi)
             except BaseException as e:
                 got = ("E", "UNEXPECTED:%s:%s" % (type(e).__name__, str(e)[:100]))
+            obs.append((name, got))
             if exp != got:
                 out.append(("operation", "op #%d %s -> %r, reference state machine says %r (history %s, plans %s)"
                             % (idx, op, got, exp, case["ops"][:idx + 1], case.get("plans"))))
@@ -401,7 +403,7 @@ class C11(object):
         sig = ("D" if W.debug else "L") + ":" + ",".join(o[0] for o in case.get("ops", [])) + ":" + repr(case.get("plans"))
         return {"violations": out, "stats": {"events": len(case.get("ops", [])), "faults": {"flush_bodies_run": nfl},
                                              "probes": {"debugbatch": 1 if W.debug else 0}},
-                "sig": sig, "nontrivial": nfl >= 1, "digest": sig}
+                "sig": sig, "nontrivial": nfl >= 1, "digest": sig + "|" + repr(obs)}
 
     def _adopt_new_items(self, W, refb, refi):
         # items created by flush bodies (plan.new_items) appear in W.items beyond the reference list
